@@ -191,6 +191,8 @@ int main(int argc, char** argv) {
     run();
     ContentPtr top = pop();
     std::string v = top.get()->validityerror("result");
+    if (NumpyArray* sc = dynamic_cast<NumpyArray*>(top.get())) { if (sc->ndim() == 0) v = ""; }   // a scalar answer
+    for (size_t i = 0; i < v.size(); i++) if (v[i] == 10 || v[i] == 13) v[i] = 32;
     std::string js = top.get()->tojson(false, -1, nullptr, nullptr, nullptr, nullptr, nullptr);
     if (!v.empty()) printf("INVALID %s | %s\n", v.c_str(), js.c_str()); else printf("OK %s\n", js.c_str());
   } catch (std::exception& e) { std::string w = e.what(); for (size_t i = 0; i < w.size(); i++) if (w[i] == 10 || w[i] == 13) w[i] = 32; printf("ERR %s\n", w.c_str()); }
